@@ -10,12 +10,18 @@ The IR and its std semantics are in GenIRIters.v; this lowering recognises EXACT
         <src> ::= <p>.<field>.iter() | <src>.enumerate()
   fn iter_element((a, b): (usize, &&'a str)) -> (K, &'a str) { <e> }        (the binder names are free)
         <e> ::= a | b | *<e> | <e> + <lit> | (<e>, <e>) | K::try_from_usize(<e>).unwrap_or_else(|| unreachable!())
-  impl Iterator for T             { type Item = ..;  fn next(&mut self);  [fn size_hint(&self)] }
+              | match K::try_from_usize(<e>) { Some(<k>) => <e with k>, None => unreachable!() }        (once, not nested)
+  a constructor may also be `Self::<h>(&<p>.<field>)` with a receiver-less helper
+        fn <h>(<q>: &'a [&'a str]) -> Self { Self { iter: <q>.iter()[.enumerate()]*, __key: PhantomData } }
+  `.map(|x| *x)` is read as `.copied()`.
+  impl Iterator for T             { type Item = ..;  fn next(&mut self);  [fn size_hint(&self)]
+                                    [fn nth(&mut self, <n>: usize)]  [fn count(self)]  [fn last(mut self)] }      (overrides of std defaults)
   impl DoubleEndedIterator for T  { fn next_back(&mut self);  fn nth_back(&mut self, <n>: usize) }
   impl ExactSizeIterator for T    {}            (empty: std's default `len`)
   impl [iter::]FusedIterator for T {}           (marker)
         every method body is one expression   self.iter.<m>(<args>) [.map(iter_element) | .map(|x| iter_element(x)) | .copied()]
-        <m>(<args>) ::= next() | next_back() | nth_back(<n> | <n> + <lit> | <lit>) | size_hint()
+        <m>(<args>) ::= next() | next_back() | nth_back(<a>) | nth(<a>) | size_hint() | len()     <a> ::= <n> | <a> + <lit> | <lit>
+                        (`count` must be `self.iter.len()`)
         or, for size_hint only, a literal `(<lit>, None)` / `(<lit>, Some(<lit>))`.
         The lowering records WHICH std method each trait method calls (so `next_back` calling `self.iter.next()` is
         translated faithfully and the theorem fails).  Any other method in these impls (nth, count, last, fold, len, ..),
@@ -30,7 +36,7 @@ import rsparse
 from rsparse import Lost
 
 CTORS = ("from_rodeo", "from_reader", "from_resolver")
-ORDER = ("next", "size_hint", "next_back", "nth_back", "len")
+ORDER = ("next", "size_hint", "nth", "count", "last", "next_back", "nth_back", "len")
 CONTAINERS = (("src/rodeo.rs", "Rodeo"), ("src/reader.rs", "RodeoReader"), ("src/resolver.rs", "RodeoResolver"))
 
 
@@ -93,15 +99,17 @@ def paren(s):
     return s if " " not in s else "(%s)" % s
 
 
-def source_of_expr(F, e, param):
-    """<param>.<field>.iter() [.enumerate()]* -> (field, source)"""
+def source_of_expr(F, e, param, direct=False):
+    """<param>.<field>.iter() [.enumerate()]* -> (field, source);   direct: <param>.iter()[.enumerate()]* -> (None, source)"""
     e = strip(e)
     if e[0] == "mcall" and e[3] == "enumerate" and not e[4]:
-        fld, s = source_of_expr(F, e[2], param)
+        fld, s = source_of_expr(F, e[2], param, direct)
         return fld, "Enumerate %s" % paren(s)
     if e[0] == "mcall" and e[3] == "iter" and not e[4]:
         r = strip(e[2])
-        if r[0] == "field" and is_path(strip(r[2]), param):
+        if direct and is_path(r, param):
+            return None, "SliceIter"
+        if not direct and r[0] == "field" and is_path(strip(r[2]), param):
             return r[3], "SliceIter"
         F.lost(e[1], "`.iter()` is not taken of a field of the constructor's parameter `%s`" % param)
     if e[0] == "mcall":
@@ -114,27 +122,41 @@ def lit_of(e):
     return e[2] if e[0] == "lit" and isinstance(e[2], int) else None
 
 
-def elem_term(F, e, a, b):
+def elem_term(F, e, a, b, key=None):
     e = strip(e)
-    if e[0] == "path" and is_path(e, a): return "EFst"
-    if e[0] == "path" and is_path(e, b): return "ESnd"
-    if e[0] == "un" and e[2] == "*": return "EDeref %s" % paren(elem_term(F, e[3], a, b))
+    if e[0] == "path" and key is not None and is_path(e, key): return "EKeyVar"
+    if e[0] == "path" and a is not None and is_path(e, a): return "EFst"
+    if e[0] == "path" and b is not None and is_path(e, b): return "ESnd"
+    if e[0] == "un" and e[2] == "*": return "EDeref %s" % paren(elem_term(F, e[3], a, b, key))
     if e[0] == "bin" and e[2] == "+" and lit_of(e[4]) is not None:
-        return "EAddLit %s %d" % (paren(elem_term(F, e[3], a, b)), lit_of(e[4]))
+        return "EAddLit %s %d" % (paren(elem_term(F, e[3], a, b, key)), lit_of(e[4]))
     if e[0] == "tuple" and len(e[2]) == 2:
-        return "EPair %s %s" % (paren(elem_term(F, e[2][0], a, b)), paren(elem_term(F, e[2][1], a, b)))
+        return "EPair %s %s" % (paren(elem_term(F, e[2][0], a, b, key)), paren(elem_term(F, e[2][1], a, b, key)))
     if e[0] == "mcall" and e[3] == "unwrap_or_else" and len(e[4]) == 1:
         c, r = strip(e[4][0]), strip(e[2])
         if c[0] == "closure" and not c[2] and strip(c[3])[0] == "macro" and strip(c[3])[2] == "unreachable" and not strip(c[3])[3] \
                 and r[0] == "call" and is_path(r[2], "K", "try_from_usize") and len(r[3]) == 1:
-            return "EKeyOrUnreachable %s" % paren(elem_term(F, r[3][0], a, b))
+            return "EKeyOrUnreachable %s" % paren(elem_term(F, r[3][0], a, b, key))
+    if e[0] == "match" and len(e[3]) == 2 and all(len(arm) == 2 for arm in e[3]):
+        # match K::try_from_usize(<e>) { Some(<k>) => <body>, None => unreachable!() }        (<k> shadows a / b in <body>)
+        r = strip(e[2])
+        some = [arm for arm in e[3] if arm[0][0] == "ptuplestruct" and is_path(arm[0][2], "Some") and len(arm[0][3]) == 1
+                and arm[0][3][0][0] == "pbind" and not arm[0][3][0][3]]
+        none = [arm for arm in e[3] if arm[0][0] == "ppath" and is_path(arm[0][2], "None")]
+        if len(some) == 1 and len(none) == 1 and r[0] == "call" and is_path(r[2], "K", "try_from_usize") and len(r[3]) == 1 and key is None:
+            u = strip(none[0][1])
+            if u[0] == "macro" and u[2] == "unreachable" and not u[3]:
+                k = some[0][0][3][0][2]
+                return "EMatchKey %s %s" % (paren(elem_term(F, r[3][0], a, b)),
+                                            paren(elem_term(F, some[0][1], None if a == k else a, None if b == k else b, k)))
     F.lost(e[1], "expression in `iter_element` outside the subset (see lower_iters.py)")
 
 
 def method_entry(F, f, trait_method):
     """one method of a trait impl -> (call, post)"""
     params = f[4]
-    want = {"next": ["&mut self"], "next_back": ["&mut self"], "size_hint": ["&self"], "nth_back": ["&mut self", "usize"]}[trait_method]
+    want = {"next": ["&mut self"], "next_back": ["&mut self"], "size_hint": ["&self"], "nth_back": ["&mut self", "usize"],
+            "nth": ["&mut self", "usize"], "count": ["self"], "last": ["mut self"]}[trait_method]
     if [t for _, t in params] != want or f[8]:
         F.lost(f[1], "signature of `%s` is not (%s)" % (trait_method, ", ".join(want)))
     F.nocfg(f, "`fn %s`" % trait_method)
@@ -148,6 +170,9 @@ def method_entry(F, f, trait_method):
                 and strip(g[3])[0] == "call" and is_path(strip(g[3])[2], "iter_element") and len(strip(g[3])[3]) == 1 \
                 and is_path(strip(strip(g[3])[3][0]), g[2][0]):
             post = "PMapIterElement"                      # |x| iter_element(x)
+        elif g[0] == "closure" and len(g[2]) == 1 and isinstance(g[2][0], str) and g[2][0] != "_" and not g[2][0].startswith("&") \
+                and strip(g[3])[0] == "un" and strip(g[3])[2] == "*" and is_path(strip(strip(g[3])[3]), g[2][0]):
+            post = "PCopied"                              # |x| *x   is what Option::copied does
         else: F.lost(g[1], "`.map(..)` of something other than `iter_element`")
         e = strip(e[2])
     elif e[0] == "mcall" and e[3] == "copied" and not e[4]:
@@ -162,6 +187,8 @@ def method_entry(F, f, trait_method):
             F.lost(e[1], "`.%s(..)` in `%s`: not a std method called directly on `self.iter` (adaptor without semantics)" % (e[3], trait_method))
         F.lost(e[1], "body of `%s` is not `self.iter.<method>(..)[.map(iter_element)|.copied()]`" % trait_method)
     m, args = e[3], e[4]
+    if trait_method == "count" and m != "len":
+        F.lost(e[1], "`count` is not `self.iter.len()`")
     if m in ("next", "next_back", "size_hint") and not args:
         return {"next": "CNext", "next_back": "CNextBack", "size_hint": "CSizeHint"}[m], post
 
@@ -173,6 +200,10 @@ def method_entry(F, f, trait_method):
         F.lost(a[1], "argument of `nth_back` outside the subset")
     if m == "nth_back" and len(args) == 1:
         return "CNthBack %s" % paren(arg(args[0])), post
+    if m == "nth" and len(args) == 1:
+        return "CNth %s" % paren(arg(args[0])), post
+    if m == "len" and not args and post == "PNone":
+        return "CFieldLen", post
     F.lost(e[1], "`self.iter.%s(..)` in `%s` has no semantics in GenIRIters.v" % (m, trait_method))
 
 
@@ -185,7 +216,7 @@ def lower_type(F, ty):
     if [n for n, _ in fields] != ["iter", "__key"] or fields[1][1].replace(" ", "") != "PhantomData<K>":
         F.lost(st[1], "struct %s does not have exactly the fields iter, __key: PhantomData<K>" % ty)
     src = source_of_type(F, st[1], fields[0][1])
-    ctors, methods, seen = {}, {}, set()
+    ctors, methods, seen, helpers = {}, {}, set(), {}
     for i in F.items:
         if i[0] != "impl" or i[3]["self"].split("<")[0] != ty: continue
         if "&" in i[3]["self"]: continue
@@ -197,6 +228,18 @@ def lower_type(F, ty):
         if other: F.lost(other[0][1], "item other than a method in `impl %s for %s`" % (tr, ty))
         if tr is None:
             for f in fns:
+                if f[3] not in CTORS and f[3] not in helpers and len(f[4]) == 1 and isinstance(f[4][0][0], str) and f[4][0][0] != "self" \
+                        and f[4][0][1].replace(" ", "") == "&'a[&'astr]" and f[5] == "Self" and not f[8]:
+                    # a helper constructor over the slice itself (no receiver: it cannot shadow a method):
+                    #   fn h(<q>: &'a [&'a str]) -> Self { Self { iter: <q>.iter()[.enumerate()], __key: PhantomData } }
+                    F.nocfg(f, "`fn %s`" % f[3])
+                    e = F.body(f)
+                    if e[0] == "struct" and names_of(e[2]) in (["Self"], [ty]) and len(e[3]) == 2 and set(dict(e[3])) == {"iter", "__key"} \
+                            and is_path(strip(dict(e[3])["__key"]), "PhantomData"):
+                        helpers[f[3]] = source_of_expr(F, dict(e[3])["iter"], f[4][0][0], True)[1]
+                        continue
+            for f in fns:
+                if f[3] in helpers: continue
                 if f[3] not in CTORS: F.lost(f[1], "inherent method `%s::%s` is not one of the three constructors" % (ty, f[3]))
                 if f[3] in ctors: F.lost(f[1], "`%s::%s` defined twice" % (ty, f[3]))
                 F.nocfg(f, "`fn %s`" % f[3])
@@ -207,6 +250,15 @@ def lower_type(F, ty):
                 if not pt.startswith("&'a"): F.lost(f[1], "parameter of `%s::%s` is not a `&'a` reference" % (ty, f[3]))
                 cont = pt[3:].split("<")[0]
                 e = F.body(f)
+                if e[0] == "call" and strip(e[2])[0] == "path" and len(names_of(strip(e[2]))) == 2 and names_of(strip(e[2]))[0] in ("Self", ty) \
+                        and all(isinstance(x, str) for x in strip(e[2])[2]) and len(e[3]) == 1:
+                    # Self::<helper>(&<p>.<field>)
+                    h, a = names_of(strip(e[2]))[1], strip(e[3][0])
+                    if h not in helpers: F.lost(e[1], "`%s::%s` calls `%s`, which is not a helper constructor over the slice" % (ty, f[3], h))
+                    if not (a[0] == "ref" and not a[2] and strip(a[3])[0] == "field" and is_path(strip(strip(a[3])[2]), p)):
+                        F.lost(a[1], "argument of `%s` is not `&%s.<field>`" % (h, p))
+                    ctors[f[3]] = (f[1], cont, strip(a[3])[3], helpers[h])
+                    continue
                 if e[0] != "struct" or names_of(e[2]) not in (["Self"], [ty]):
                     F.lost(f[1], "`%s::%s` is not a bare `Self { .. }`" % (ty, f[3]))
                 flds = dict(e[3])
@@ -217,7 +269,7 @@ def lower_type(F, ty):
             continue
         if tr in seen: F.lost(i[1], "second `impl %s for %s`" % (tr, ty))
         seen.add(tr)
-        allowed = {"Iterator": ("next", "size_hint"), "DoubleEndedIterator": ("next_back", "nth_back"),
+        allowed = {"Iterator": ("next", "size_hint", "nth", "count", "last"), "DoubleEndedIterator": ("next_back", "nth_back"),
                    "ExactSizeIterator": (), "iter::FusedIterator": (), "FusedIterator": (), "core::iter::FusedIterator": ()}
         if tr not in allowed: F.lost(i[1], "`impl %s for %s`: a trait impl without semantics in GenIRIters.v" % (tr, ty))
         for f in fns:
